@@ -265,10 +265,10 @@ def main(args):
                "instance on stdin, stdout and stderr are parsed back into records and each validation error is attributed by "
                "comparison with the library's own iter_errors; plus random longer lists judged by TLC (Trace_C19). "
                "Non-trivial: a valid schema and >= 2 instances of different kinds; distinct by (inputs, variant)." % (2 if quick else 3))
-    r = tlc.run("mc/MC_C19.tla", cfg="mc/MC_C19_%s.cfg" % args.tier, workers=8, timeout=3000)
+    r = tlc.run("mc/MC_C19.tla", cfg="mc/MC_C19_%s.cfg" % args.tier, workers=8, timeout=3000, coverage=True)
     if r.violation:
         raise tlc.MachineryFailure("CLI model violated: " + r.violation)
-    ck.add_tlc(r)
+    ck.add_tlc(r, "MC_C19")
     env = Env()
     variants_plain = [{}, {"custom_format": True}, {"empty_format": True}, {"root_id": True, "custom_format": True}, {"explicit_validator": True, "custom_format": True}, {"dollar_schema": True},
                       {"explicit_validator": True, "dollar_schema7": True, "custom_format": True},
